@@ -10,12 +10,23 @@ import irsym
 from irsym import Engine, Unsupported, EngineLimit
 
 def _nondet_named(s, w, label):
+    """fresh input named by (label, thread, step, call site incl. stack, how often THIS PATH has already drawn at that site in
+    this step).  The per-path counter lives in the path environment (merged like a register), so the symbolic run and a
+    concrete replay of one of its models name the same draw identically even when other merged paths pass the same site."""
     c = s.cur_ctrl
-    key = (label, s.cur, s.stepno, c)
-    k = s.nd_count.get(key, 0); s.nd_count[key] = k + 1
+    key = (label, c)
+    env0 = s.env[0]; d = env0.get('!nd')
+    if d is None or d[0] != (s.cur, s.stepno): d = ((s.cur, s.stepno), {})
+    cnt = d[1].get(key, 0)
     h = zlib.crc32(repr(c).encode()) & 0xffffff
-    nm = '%s!t%d!s%d!%06x!%d' % (label, s.cur, s.stepno, h, k)
-    return s.input(nm, w)
+    v = None
+    for gk, kv in alts_of(cnt):
+        if kv is None or not isinstance(kv, int): raise EngineLimit('non-enumerable draw counter')
+        iv = s.input('%s!t%d!s%d!%06x!%d' % (label, s.cur, s.stepno, h, kv), w)
+        v = iv if v is None else ite(gk, iv, v, w)
+    nd = dict(d[1]); nd[key] = binop('add', cnt, 1, 8)
+    s.env[0] = dict(env0); s.env[0]['!nd'] = (d[0], nd)
+    return v
 
 class Exploration:
     def __init__(s, m, cfg, concrete=None):
@@ -71,21 +82,25 @@ class Exploration:
         def thread_en(t):
             st = e.tstate[t]; pk = st.get('parked', False)
             if pk is False: return True
-            p, v, sz = st['park']
-            cur = e.mem.load(p, sz, pk, 'park-watch', check=False)
-            return gor(gnot(pk), icmp('ne', cur, v, sz * 8))
+            ch = False
+            for p, v, sz, ok in st['park']:
+                if ok is False: continue
+                cur = e.mem.load(p, sz, gand(pk, ok), 'park-watch', check=False)
+                ch = gor(ch, gand(ok, icmp('ne', cur, v, sz * 8)))
+            return gor(gnot(pk), ch)
         def runnable_g(t):
             r = False
             for c, (g, env) in ctrl[t].items():
                 if c == DONE: continue
                 r = gor(r, gand(g, e.enabled(t, c, env, g)))
             return gand(r, thread_en(t))
-        sbits = max(1, (NT).bit_length())
+        sbits = max(1, (NT).bit_length()); s.dbg_hist = []
         pre_cnt = None; prev = None; prev_run = None
         C = s.cfg.get('preempt')
         for k in range(s.K):
             e.stepno = k
             runnable = [runnable_g(t) for t in range(NT)]
+            if s.cfg.get('opts', {}).get('dbg_hist'): s.dbg_hist.append((runnable, [(e.tstate[t].get('parked', False), list(e.tstate[t].get('park', []))) for t in range(NT)], [{c: g for c, (g, _e) in ctrl[t].items()} for t in range(NT)]))
             if all(r is False for r in runnable): break
             if s.concrete is not None:
                 sch = s.concrete['schedule']; sk = sch[k] if k < len(sch) else NT
